@@ -33,6 +33,8 @@ ComplexType Vertex4::operator()(long MatsubaraNumber1, long MatsubaraNumber2, lo
     //if(isVanishing())
     //    return 0.0;
     //else
+    // Nothing is stored before the first compute(): the storage has no source object yet.
+    if(Status < Computed) return value(MatsubaraNumber1,MatsubaraNumber2,MatsubaraNumber3);
         return Storage(MatsubaraNumber1,MatsubaraNumber2,MatsubaraNumber3);
 }
 
